@@ -13,7 +13,7 @@ package operations
 //@   at call SignHeader#1 assert [delete-record-names] hdr.Name == dbhdr.Name && hdr.PAXRecords["STFS.Action"] == "DELETE" && hdr.Size == 0
 //@   property C17
 //@   at call SignHeader#1 assert [pax-format] arg_hdr.Format == 4
-//@   property C02
+//@   property C02 also C12
 //@   ghostset opDeletes := old(opDeletes) + 1
 //@   ensures [counted] opDeletes == old(opDeletes) + 1
 //@   property C05
